@@ -912,8 +912,104 @@ def _same_line_count(fn: ast.AST, test: ast.AST, pol: bool, cand: Optional[str],
     return (is_len_of(sides[0], cand) and is_greedy_count(sides[1])) or (is_len_of(sides[1], cand) and is_greedy_count(sides[0]))
 
 
+# ---------------------------------------------------------------------------
+# "no ordering" is only answered on evidence of a cycle
+
+
+def empty_result_guard(prog: Program) -> RuleResult:
+    res = RuleResult(
+        "EMPTY-RESULT-GUARD",
+        "toposort_all answers 'no ordering' (a constant empty list) only on evidence of a cycle that also holds "
+        "for the graph without vertices: under the test that an enumerated ordering is shorter than the graph, "
+        "or under a test that includes the graph being non-empty. 'No source vertex' alone is not evidence - "
+        "the empty graph has no source and exactly one ordering, the empty one",
+    )
+    mod = prog.module(TOPO)
+    fn = prog.func(TOPO, "toposort_all")
+    gparam = func_params(fn)[0]
+    n = 0
+    for ret in walk_no_nested(fn):
+        if not (isinstance(ret, ast.Return) and isinstance(ret.value, (ast.List, ast.Tuple)) and not ret.value.elts):
+            continue
+        n += 1
+        gs = guards(fn, ret)
+        construct = f"{TOPO}:toposort_all/empty-answer[" + (" and ".join(("" if p else "not ") + short(t, 40) for t, p in gs) or "always") + "]"
+        justified = False
+        mentions_graph = False
+        for test, pol in gs:
+            for lit, lpol in _lits(test, pol):
+                names = {x.id for x in ast.walk(lit) if isinstance(x, ast.Name)}
+                if gparam in names:
+                    mentions_graph = True
+                if _is_length_mismatch(lit, lpol, gparam):
+                    justified = True
+                if lpol and dotted(lit) == gparam:
+                    justified = True  # `if graph and ...`
+                if (
+                    isinstance(lit, ast.Compare)
+                    and len(lit.ops) == 1
+                    and dotted(lit.left) is None
+                    and isinstance(lit.left, ast.Call)
+                    and dotted(lit.left.func) == "len"
+                    and dotted(lit.left.args[0]) == gparam
+                    and isinstance(lit.comparators[0], ast.Constant)
+                    and lit.comparators[0].value == 0
+                    and isinstance(lit.ops[0], (ast.Gt, ast.NotEq)) == lpol
+                    and isinstance(lit.ops[0], (ast.Gt, ast.NotEq, ast.Eq))
+                ):
+                    justified = True
+        cond = " and ".join(("" if p else "not ") + short(t, 60) for t, p in gs) or "unconditionally"
+        if justified:
+            res.ok(construct, f"`return []` under {cond}")
+        elif not mentions_graph:
+            res.fail(
+                construct,
+                f"`return []` under `{cond}`: this also holds for the graph without vertices, whose only "
+                "ordering (the empty one) is then not returned",
+                mod,
+                ret,
+            )
+        else:
+            raise AnalysisError(f"{construct}: guard `{cond}` of an empty answer is not understood")
+    if n < 1:
+        raise AnalysisError("EMPTY-RESULT-GUARD: toposort_all has no constant empty answer (cycle rejection vanished?)")
+    return res
+
+
+def _lits(test: ast.AST, pol: bool):
+    while isinstance(test, ast.UnaryOp) and isinstance(test.op, ast.Not):
+        test, pol = test.operand, not pol
+    if isinstance(test, ast.BoolOp):
+        if isinstance(test.op, ast.And) and pol:
+            for v in test.values:
+                yield from _lits(v, True)
+            return
+        if isinstance(test.op, ast.Or) and not pol:
+            for v in test.values:
+                yield from _lits(v, False)
+            return
+    yield test, pol
+
+
+def _is_length_mismatch(lit: ast.AST, pol: bool, gparam: str) -> bool:
+    if not (isinstance(lit, ast.Compare) and len(lit.ops) == 1):
+        return False
+    op = lit.ops[0]
+    if not ((isinstance(op, (ast.NotEq, ast.Lt)) and pol) or (isinstance(op, (ast.Eq, ast.GtE)) and not pol)):
+        return False
+    sides = [lit.left, lit.comparators[0]]
+
+    def len_of(e: ast.AST) -> Optional[str]:
+        if isinstance(e, ast.Call) and dotted(e.func) == "len" and len(e.args) == 1:
+            return dotted(e.args[0])
+        return None
+
+    return gparam in (len_of(sides[0]), len_of(sides[1])) and None not in (len_of(sides[0]), len_of(sides[1]))
+
+
 
 RULES = {
+    "EMPTY-RESULT-GUARD": empty_result_guard,
     "GROUPS-PAIRING": groups_pairing,
     "LEAVES-SOURCE": leaves_source,
     "WRAP-DISCIPLINE": wrap_discipline,
